@@ -254,11 +254,13 @@ def check_open_segment(core, v, seg, level, rec, rng):
         setattr(s, '%s_%d' % (seg.lower(), hi), 'five')
         before = state(s)
         for rep in range(2):
-            p = getattr(s, '%s_%d' % (seg.lower(), lo))
-            len(p), repr(p), list(p)
-            getattr(p, 'value')
-            getattr(p, 'datatype')
-            s.to_er7()
+            # a missing field below the highest one present, and one beyond it
+            for num in (lo, hi + 1 + rep, hi + 5):
+                p = getattr(s, '%s_%d' % (seg.lower(), num))
+                len(p), repr(p), list(p)
+                getattr(p, 'value')
+                getattr(p, 'datatype')
+                s.to_er7()
         rec.count('read_purity_comparisons')
         if state(s) != before:
             rec.violation('read-changed-encoding', case, {'before': before[0][0], 'after': s.to_er7()})
